@@ -22,6 +22,7 @@ CONSTANTS Mode,        \* "blocker": add_filter/optimize available; "engine": se
           DevRegexKeyedByAddress,   \* TRUE = model the pre-fix behaviour (cache survives re-tagging)
           Allocs,      \* "any": every placement of re-allocated rules; "first": lowest free addresses
           InitSet,     \* "full" | "notagblock" (no tagged blocking rule in the list)
+          Ops,         \* "all" | "tags" (only tag assignment, discard and query: deeper histories)
           Export
 
 VARIABLES rules, tags, blob, hist, heap, cache
@@ -43,11 +44,12 @@ Pool == <<
   [W("/hhh/iii") EXCEPT !.tag = "t2"],                      \* 9 addable tagged plain rule
   W("/ab-"), W("/ab_"),                                     \* 10, 11 fusable plain rules sharing a bucket
   W("/ab."),                                                \* 12 addable, same bucket and mask as 10, 11
-  W("/aaa")                                                 \* 13 untagged block (for the tagged exception)
+  W("/aaa"),                                                \* 13 untagged block (for the tagged exception)
+  [W("x.com^") EXCEPT !.left = "dpipe", !.mkind = "removeparam", !.mval = "q", !.important = TRUE]   \* 14 addable: category precedence
 >>
 PoolX == Pool
 InitRules == IF InitSet = "full" THEN <<1, 2, 3, 4, 5, 6, 7, 8, 10, 11>> ELSE <<3, 5, 7, 13>>
-Addable == IF Mode = "blocker" THEN {9, 12} ELSE {}
+Addable == IF Mode = "blocker" THEN {9, 12, 14} ELSE {}
 
 MkReq(path, alias) ==
   LET pre == Chars("https://") h == Chars("x.com") IN
@@ -56,7 +58,7 @@ MkReq(path, alias) ==
 Reqs == << MkReq("/aaa/bbb", "script"), MkReq("/ccc/ddd", "script"), MkReq("/eee/zz", "image"),
            MkReq("/ab/a", "script"), MkReq("/ccc/", "script"), MkReq("/", "document"),
            MkReq("/fff/x/ggg", "script"), MkReq("/hhh/iii", "script"), MkReq("/aaa-bbb", "script"),
-           MkReq("/ab-x", "script"), MkReq("/ab_x", "script"), MkReq("/ab.x", "script") >>
+           MkReq("/ab-x", "script"), MkReq("/ab_x", "script"), MkReq("/ab.x", "script"), MkReq("/p?q=1&r=2", "xhr") >>
 
 TagSets == SUBSET {"t1", "t2"}
 RuleSeq(rs) == [i \in DOMAIN rs |-> PoolX[rs[i]]]
@@ -161,9 +163,10 @@ Init == /\ rules = InitRules /\ tags = {} /\ blob = <<>> /\ hist = <<>>
         /\ heap = [i \in {} |-> 0] /\ cache = [a \in Addr |-> NONE]
 
 Next == \/ \E S \in TagSets : UseTags(S)
-        \/ \E t \in {"t1", "t2"} : EnableTags({t}) \/ DisableTags({t})
-        \/ \E i \in Addable : AddFilter(i)
-        \/ Optimize \/ Discard \/ Serialize \/ Deserialize \/ Query
+        \/ (Ops = "all" /\ \E t \in {"t1", "t2"} : EnableTags({t}) \/ DisableTags({t}))
+        \/ (Ops = "all" /\ \E i \in Addable : AddFilter(i))
+        \/ (Ops = "all" /\ (Optimize \/ Serialize \/ Deserialize))
+        \/ Discard \/ Query
 
 --------------------------------------------------------------------------
 \* C06 (M1): in every reachable state the Impl answer is an Ideal answer for (rules, tags)
